@@ -249,14 +249,36 @@ def shadowed_by_disable_all(stack, label, opt):
     return any(any(k == opt and v is False for k, v in sec) and any(k == "disable_all" and v is True for k, v in sec) for sec in sections)
 
 
-def display_check(stack, d, col=None):
+def cli_flags(cmdline):
+    """The command-line spelling of a cmdline mapping: -e/-d for error codes, --x / --no-x for booleans,
+    --x N for integers, one --x item per list element (an empty list cannot be spelt and is left out)."""
+    flags, effective = [], {}
+    for opt, v in cmdline.items():
+        flag = "--" + opt.replace("_", "-")
+        if opt in ALL_CODE_NAMES:
+            flags += ["-e" if v else "-d", opt]
+        elif kind_of(opt) == "bool":
+            flags.append(flag if v else "--no-" + opt.replace("_", "-"))
+        elif kind_of(opt) == "int":
+            flags += [flag, str(v)]
+        else:
+            if not v:
+                continue
+            for item in v:
+                flags += [flag, item]
+        effective[opt] = v
+    return flags, effective
+
+
+def display_check(stack, d, col=None, cmdline=None):
     """`python -m pyanalyze --config-file f0.toml --display-options`: the printed effective value and the
     printed instance order (pyanalyze lists them in precedence order) against the reference, for the root
     module path and for every override module that appears."""
     import ast as _ast
 
     main = write_stack(stack, d)
-    code, out, err = sut.run_cli(["--config-file", str(main), "--display-options"], cwd=d)
+    flags, cmdline = cli_flags(cmdline or {})
+    code, out, err = sut.run_cli(["--config-file", str(main), "--display-options"] + flags, cwd=d)
     if code != 0 or "Options:" not in out:
         return [("cli|display-options-failed", f"exit status {code}: {(err or out)[-300:]}", None, None)]
     shown = {}
@@ -282,7 +304,7 @@ def display_check(stack, d, col=None):
             continue
         mods = sorted({mod for _, mod in shown[opt]["instances"]} | {()})
         for path in mods:
-            exp, layers = reference(stack, {}, opt, path)
+            exp, layers = reference(stack, cmdline, opt, path)
             want = []
             for label, v in layers[:-1]:
                 want.append(v)
@@ -293,14 +315,14 @@ def display_check(stack, d, col=None):
             got = [parse(t) for t, mod in shown[opt]["instances"] if path[: len(mod)] == mod]
             norm = lambda xs: [list(x) if isinstance(x, (list, tuple)) else x for x in xs]
             if col is not None:
-                col.case(nontrivial_id=("cli", runner.h64(json.dumps(stack, sort_keys=True)), opt, path) if len(want) >= 2 else None,
-                         label=["route:cli-display", f"kind:{kind_of(opt)}"])
+                col.case(nontrivial_id=("cli", runner.h64(json.dumps([stack, cmdline], sort_keys=True)), opt, path) if len(want) >= 2 else None,
+                         label=["route:cli-display", f"kind:{kind_of(opt)}"] + (["cli:flag-given" + (":falsy" if not cmdline[opt] else "")] if opt in cmdline else []))
             if norm(got) != norm(want):
                 fails.append((f"cli|instance-order|{kind_of(opt)}",
                               f"--display-options lists for {opt} and module {'.'.join(path) or '()'} the values {got} in precedence order; "
                               f"the reference order is {want} (layers {layers})", opt, path))
         if kind_of(opt) != "list":
-            exp, layers = reference(stack, {}, opt, ())
+            exp, layers = reference(stack, cmdline, opt, ())
             if parse(shown[opt]["value"]) != exp:
                 fails.append((f"cli|value|{kind_of(opt)}", f"--display-options shows {opt} (value: {shown[opt]['value']}), reference says {exp!r}", opt, ()))
     return fails
@@ -320,7 +342,7 @@ def value_for(opt, tag):
     if k == "bool":
         return st.booleans()
     if k == "int":
-        return st.integers(1, 50)
+        return st.integers(0, 50)
     return st.lists(st.sampled_from([f"{tag}_p", f"{tag}_q", "shared"]), max_size=2)
 
 
@@ -483,6 +505,23 @@ def lattice_cases(opt_by_kind):
                     yield stack, cmdline, opt
 
 
+def cmdline_lattice():
+    """Every option kind given on the command line with a falsy and a truthy value, over a main file that leaves
+    the option unset / sets the other value at top level / sets it in an override of module a."""
+    vals = {"bool": (False, True), "int": (0, 7), "list": (["cmd"], ["cmd", "shared"])}
+    for opt in BOOL_CODES[:2] + BOOL_OPTS + INT_OPTS + LIST_OPTS:
+        k = kind_of(opt)
+        for i, v in enumerate(vals[k]):
+            other = vals[k][1 - i]
+            for place in ("unset", "top", "a"):
+                top = []
+                if place == "top":
+                    top.append([opt, other])
+                elif place == "a":
+                    top.append(["overrides", [[["module", "a"], [opt, other]]]])
+                yield [{"top": top}], {opt: v}, opt
+
+
 # ---------------------------------------------------------------- shards
 def shards(tier, seed):
     n = 16
@@ -490,8 +529,9 @@ def shards(tier, seed):
     inv = 120 if tier == "quick" else 2000
     out = [{"mode": "random", "index": i, "stacks": per, "invalid": inv} for i in range(n)]
     out.append({"mode": "lattice"})
-    out.append({"mode": "visitor", "stacks": 6 if tier == "quick" else 60})
-    out += [{"mode": "cli", "index": i, "stacks": 8 if tier == "quick" else 150} for i in range(2)]
+    out += [{"mode": "visitor", "index": i, "stacks": 25 if tier == "quick" else 300} for i in range(2)]
+    out += [{"mode": "cli", "index": i, "stacks": 8 if tier == "quick" else 150} for i in range(3)]
+    out += [{"mode": "cmdline-lattice", "index": i, "of": 4} for i in range(4)]
     return out
 
 
@@ -513,15 +553,29 @@ def run_shard(spec):
             col.sample({"lattice_stack": render_file(stack[0], 0)})
             return col.result()
 
+        if spec["mode"] == "cmdline-lattice":
+            n = 0
+            for i, (stack, cmdline, opt) in enumerate(cmdline_lattice()):
+                if i % spec["of"] != spec["index"]:
+                    continue
+                queries = [(opt, p) for p in PATHS]
+                for key, what, o, p in check_valid(stack, cmdline, d, col, queries, via_visitor=True):
+                    col.fail("visitor|" + key, what, {"stack": stack, "cmdline": cmdline, "opt": o, "path": p, "via_visitor": True})
+                for key, what, o, p in display_check(stack, d, col, cmdline):
+                    col.fail(key, what, {"stack": stack, "cmdline": cmdline, "opt": o, "path": p, "cli": True})
+                n += 1
+            col.extra["exhaustive_cmdline_lattice"] = n
+            return col.result()
+
         seed = runner.mix_seed(spec["seed"], ID, spec["name"])
 
         if spec["mode"] == "cli":
             def make_c():
                 @given(stacks())
                 def t(sc):
-                    stack, _ = sc
-                    for key, what, o, p in display_check(stack, d, col):
-                        col.fail(key, what, {"stack": stack, "cmdline": {}, "opt": o, "path": p, "cli": True}, raise_new=True)
+                    stack, cmdline = sc
+                    for key, what, o, p in display_check(stack, d, col, cmdline):
+                        col.fail(key, what, {"stack": stack, "cmdline": cmdline, "opt": o, "path": p, "cli": True}, raise_new=True)
                 return t
             runner.drive(col, make_c, seed, spec["stacks"], replay=replay)
             return col.result()
@@ -583,7 +637,7 @@ def replay(case):
                     + ("accepted silently" if r is False else f"raised {r}"),
                     "case": case}
         if case.get("cli"):
-            for key, what, o, p in display_check(case["stack"], d):
+            for key, what, o, p in display_check(case["stack"], d, None, case.get("cmdline")):
                 return {"key": key, "what": what, "case": case}
             return None
         q = [(case["opt"], tuple(case["path"]))] if case.get("opt") else None
